@@ -248,7 +248,7 @@ func (g *G) planBody(b *schema.BodySchema, depth int, parentAddr string) *BodyPl
 				n = g.pick(2)
 			}
 			g.items += n
-			short := false
+			short, over := false, false
 			if bs.MinItems > 0 && uint64(n) < bs.MinItems {
 				if !g.O.NoOddities && g.coin(0.4) {
 					// fewer static blocks than the minimum: with a dynamic block of the type
@@ -262,15 +262,16 @@ func (g *G) planBody(b *schema.BodySchema, depth int, parentAddr string) *BodyPl
 			}
 			if bs.MaxItems > 0 && uint64(n) > bs.MaxItems {
 				n = int(bs.MaxItems)
-				if !g.O.NoOddities && g.coin(0.1) {
+				if !g.O.NoOddities && g.coin(0.15) {
 					n++
+					over = true
 					bp.Injected = append(bp.Injected, "too-many-blocks:"+bt)
 				}
 			}
 			for i := 0; i < n; i++ {
 				bp.Items = append(bp.Items, &Item{Block: g.planBlock(bt, bs, depth-1)})
 			}
-			if ext != nil && ext.DynamicBlocks && bs.Body != nil && !(g.O.Simple && b.AnyAttribute != nil) && ((!tight && g.coin(0.25)) || (short && g.coin(0.6))) {
+			if ext != nil && ext.DynamicBlocks && bs.Body != nil && !(g.O.Simple && b.AnyAttribute != nil) && ((!tight && g.coin(0.25)) || (short && g.coin(0.6)) || (over && g.coin(0.6))) {
 				blk := g.planBlock(bt, bs, depth-1)
 				blk.Dynamic = true
 				if g.O.Simple {
